@@ -144,6 +144,23 @@ func casesC05(g *Gen) []*Case {
 	for i := 0; i < g.scale(6000, 150000); i++ {
 		addText(g.sigmaRandom(syms, g.scale(10, 40)))
 	}
+	// text around code blocks that hold strings with escapes, semicolons, assignments: the text comes out as it is
+	codeSyms := append(append([]string{}, syms...), `{{ "q\"q" }}`, `{{ 'it\'s' }}`, `{{ y = 1; }}`, `{{ 1; }}`, `{{ "a\\" }}`, `;`, `{{ "s" }}`, `{{ 1 }}`, `{{ y = "v" }}`, `{{ "\n" }}`,
+		"text", "<b>", "{{ \"a\\{{b\" }}", "{{ [1, \"x\\\"y\"] }}")
+	for i := 0; i < g.scale(3000, 60000); i++ {
+		addText(g.sigmaRandom(codeSyms, g.scale(6, 14)))
+	}
+	for src, want := range map[string]string{`{{ "say \"hi\"" }} text {{ 'it\'s' }}!`: `say "hi" text it's!`, `a{{ "x\"" }}b{{ "y" }}c`: `ax"byc`,
+		`{{ "a\"b" }}{{-- c --}} tail`: `a"b tail`, `@if(true){{ 'q\'' }}in@end out`: `q'in out`, `{{ ["x\"y"][0] }} z`: `x"y z`,
+		`{{ y = 1; }}text`: "ERR", `<ul>{{ y = 1; }}<li>first</li>{{ y }}</ul>`: "ERR", `{{ 1; }}t{{ 2 }}`: "ERR"} {
+		c := evalCase("text_after_code_blocks", src, nil)
+		if want == "ERR" {
+			c.Oracle = func(c *Case, impl string) string { return wantErr("")(impl) }
+		} else {
+			c.Oracle = expectOut(want)
+		}
+		add(c)
+	}
 	// bytes that editors add or strip: a byte order mark at the start (and elsewhere), NUL, other white space
 	for _, pre := range []string{"\xef\xbb\xbf", "\xef\xbb\xbf\xef\xbb\xbf", "\xfe\xff", "\x00", "\v\f", "\u00a0", "\u2028\u2029", "\r\n", "\n\n"} {
 		for _, body := range []string{"", "text", "{{ 1 }}", "\ntext {{ \"x\" }}", "@if(true)y@end", pre} {
@@ -582,7 +599,8 @@ func casesC19(g *Gen) []*Case {
 	// inside code: token soups between {{ }}
 	code := []string{"1", "2.5", "\"s\"", "'t'", "x", "name", "+", "-", "*", "/", "%", "++", "--", "==", "!=", "<", ">", "<=", ">=", "!", "=", "?", ":", ",", ".", ";", "(", ")", "[", "]", "{", "}", " ", "\n", "\t", "\r\n", "true", "nil", "in", "$", "#", "\"a\nb\"", "\"q\\\"q\"", "é",
 		// bytes and characters that some notion of white space includes and the lexer's does not
-		"\v", "\f", "à", "Å", "Р", "х", "\x85", "\xa0", "\u0085", "\u00a0", "\u2003", "\u3000", "\x00", "\x1c", "\ufeff"}
+		"\v", "\f", "à", "Å", "Р", "х", "\x85", "\xa0", "\u0085", "\u00a0", "\u2003", "\u3000", "\x00", "\x1c", "\ufeff",
+		"\u200b", "\u200c", "\u200d", "\u2060", "\u00ad", "\u180e", "\xe2\x80", "\xe2"}
 	for i := 0; i < g.scale(8000, 200000); i++ {
 		pre := g.pick([]string{"", "ab\n", "é ", "\n\n"})
 		add("code_soup", pre+"{{ "+g.sigmaRandom(code, 10)+" }}"+g.pick([]string{"", "z", "\n@end"}))
@@ -660,6 +678,33 @@ func casesC08(g *Gen) []*Case {
 		c2 := evalCase("degenerate_names", bad, nil)
 		c2.Oracle = oracleC08(false)
 		cs = append(cs, c2)
+	}
+	// malformed arguments of every directive that takes expressions: rejected with an error, never a crash
+	for _, arg := range []string{"[,]", "x.f(,)", "a[]]", "{a: [,]}", "1 +", "[1, ", "{a: }", ",", "[[,]]", "x[", "x.", "x.f(", "(", "()", "{,}", "{a b}", "[1 2]", "x ? : y", "-", "!"} {
+		for _, frame := range []string{`@component("c", %s)`, `{{ %s }}`, `@dump(%s)`, `@insert("a", %s)`, `@if(%s)y@end`, `@each(v in %s)y@end`, `@for(i = %s; i < 2; i++)y@end`, `@breakIf(%s)`,
+			`@component("c", {k: %s})`, `{{ y = %s }}`} {
+			add("malformed_arguments", fmt.Sprintf(frame, arg), false)
+		}
+	}
+	// chains of component files that use component files: loading returns (whatever it makes of them)
+	for _, n := range []int{3, 12, 41} {
+		t := newTree()
+		for k := 0; k < n; k++ {
+			t.files[fmt.Sprintf("tpl/c%02d.tw", k)] = fmt.Sprintf(`(%d:@slot|@component("c%02d")@slot x@end@end@component("c%02d")@slot y@end@end)`, k, k+1, k+1)
+		}
+		t.files[fmt.Sprintf("tpl/c%02d.tw", n)] = "[leaf:@slot]"
+		t.files["tpl/page.tw"] = `@component("c00")@slot p@end@end`
+		c := histCase("component_chains", t, []string{opNew("tpl", ".tw", "", false), opStr("page", nil)}, fmt.Sprintf("NewTemplate over a chain of %d component files, each using the next twice", n))
+		c.Timeout = 20 * time.Second
+		c.Oracle = func(c *Case, impl string) string {
+			for _, r := range results(impl) {
+				if !(strings.HasPrefix(r, "NEWOK") || strings.HasPrefix(r, "NEWERR ") || strings.HasPrefix(r, "OK") || strings.HasPrefix(r, "ERR ") || strings.HasPrefix(r, "OSERR ") || r == "NOTPL") {
+					return "loading and rendering must return a result or an error: " + clip(r, 200)
+				}
+			}
+			return ""
+		}
+		cs = append(cs, c)
 	}
 	// numbers cut off inside an exponent or a fraction, at the end of the input and inside code
 	for _, num := range []string{"1e", "1e+", "1e-", "2.5E", "2.5E-", "3e-", "1e6", "2.5E-3", "1.", "1.e", "1e1e", ".5", "1..2", "0x", "0x1F", "1_000", "1e+x", "9e999"} {
